@@ -35,7 +35,7 @@ func generate(w *mon.W) {
 	pipecheck.InstallSplitObserver(w)
 	nInst := w.Pick(3, 6)
 	rng := gen.RNG(w.Seed, "c03")
-	n := w.Pick(7_000, 160_000)
+	n := w.Pick(8_000, 160_000)
 	pre := []string{"where", "project", "extend", "sort", "take", "top", "as", "summarize", "render", "count"}
 	for i := 0; i < n && !w.Stopped(); i++ {
 		var seq []string
@@ -72,6 +72,12 @@ func generate(w *mon.W) {
 			p = pairedConditions(rng, (i/9)%6)
 		case 7:
 			p = oneSidedConditions(rng, (i/9)%30)
+		case 8:
+			if (i/9)%2 == 0 {
+				p = orientedComparison(rng, (i/18)%24)
+			} else {
+				p = joinThenNarrowedCount(rng, (i/18)%8)
+			}
 		}
 		c := &pipecheck.Case{Pipe: p}
 		for k := 0; k < nInst; k++ {
@@ -284,6 +290,64 @@ func oneSidedConditions(rng interface{ Intn(int) int }, form int) *Pipe {
 	if rng.Intn(2) == 0 {
 		p.Ops = append(p.Ops, &Op{K: "count"})
 	}
+	return p
+}
+
+// orientedComparison: a key plus one comparison between the sides, every
+// operator in both orientations ($left first, $right first), bare and under not().
+func orientedComparison(rng interface{ Intn(int) int }, form int) *Pipe {
+	ops := []string{"==", "!=", "<", "<=", ">", ">="}
+	op := ops[form%6]
+	a, b := Name("$left", "ia"), Name("$right", "ub")
+	if form/6%2 == 1 {
+		a, b = b, a
+	}
+	c := Bin(op, a, b)
+	if form/12 == 1 && op != "==" {
+		c = Call("not", c)
+	}
+	p := &Pipe{Table: Ident{Name: "T"}}
+	kind := []string{"", "inner", "leftouter", "innerunique"}[rng.Intn(4)]
+	conds := []*E{Name("k"), c}
+	if rng.Intn(3) == 0 {
+		conds = []*E{c}
+	}
+	p.Ops = append(p.Ops, &Op{K: "join", Kind: kind, Right: &Pipe{Table: Ident{Name: "U"}}, Conds: conds})
+	if rng.Intn(2) == 0 {
+		p.Ops = append(p.Ops, &Op{K: "count"})
+	}
+	return p
+}
+
+// joinThenNarrowedCount: a join followed by operators that narrow or reorder
+// its result (take, top, sort + take, where) and then count as the last
+// operator: the count is over what those operators leave.
+func joinThenNarrowedCount(rng interface{ Intn(int) int }, form int) *Pipe {
+	p := &Pipe{Table: Ident{Name: "T"}}
+	if rng.Intn(2) == 0 {
+		p.Ops = append(p.Ops, &Op{K: "where", X: Bin(">=", Name("id"), Num("0"))})
+	}
+	kind := []string{"", "inner", "leftouter", "innerunique"}[rng.Intn(4)]
+	p.Ops = append(p.Ops, &Op{K: "join", Kind: kind, Right: &Pipe{Table: Ident{Name: "U"}}, Conds: []*E{Name("k")}})
+	switch form {
+	case 0:
+		p.Ops = append(p.Ops, &Op{K: "take", X: Num("1")})
+	case 1:
+		p.Ops = append(p.Ops, &Op{K: "take", X: Num("0")})
+	case 2:
+		p.Ops = append(p.Ops, &Op{K: "top", X: Num("2"), Terms: []SortTerm{{X: Name("id")}}})
+	case 3:
+		p.Ops = append(p.Ops, &Op{K: "sort", Terms: []SortTerm{{X: Name("uid"), Dir: "asc"}}}, &Op{K: "take", X: Num("2")})
+	case 4:
+		p.Ops = append(p.Ops, &Op{K: "where", X: Bin(">", Name("ub"), Num("0"))})
+	case 5:
+		p.Ops = append(p.Ops, &Op{K: "take", X: Num("3")}, &Op{K: "take", X: Num("1")})
+	case 6:
+		p.Ops = append(p.Ops, &Op{K: "sort", Terms: []SortTerm{{X: Name("id")}}})
+	default:
+		p.Ops = append(p.Ops, &Op{K: "summarize", Cols: []Col{{Name: &Ident{Name: "n"}, X: Call("count")}}, HasBy: true, By: []Col{{X: Name("ub")}}})
+	}
+	p.Ops = append(p.Ops, &Op{K: "count"})
 	return p
 }
 
